@@ -129,8 +129,15 @@ def run_property(pid, tier, repo, jobs=12):
         res["infra"].append("kani build/run failed: " + (first[1].get("error_tail") or "")[-600:])
         return res
     runs = [first]
+    # memory-aware scheduling: big formulas (several GB of CBMC each; the OOM killer was observed at 12 in parallel)
+    # run at most 3 at a time, everything else 12 at a time
+    rest = us[1:]
+    light = [u for u in rest if u.get("timeout", 600) < 1800]
+    heavy = [u for u in rest if u.get("timeout", 600) >= 1800]
     with ThreadPoolExecutor(max_workers=jobs) as ex:
-        runs += list(ex.map(go, us[1:]))
+        runs += list(ex.map(go, light))
+    with ThreadPoolExecutor(max_workers=3) as ex:
+        runs += list(ex.map(go, heavy))
     res["checker_cmd"] = runs[0][1]["cmd"].replace(us[0]["harness"], "<harness>")
     known = common.load_known()
     solver_s = 0.0
